@@ -327,7 +327,7 @@ def _run(tier, res, force_search=False):
 
     # ---- tier B (1): skeletons, ordered and shuffled input, through the real apply_location
     n_sk = 12 if tier == "quick" else 90
-    n_skp = 36 if tier == "quick" else 360
+    n_skp = 60 if tier == "quick" else 360
     lines, expect = probes.skeleton_cases(rng, n_sk, tier, res, problems)
     l2, e2 = skeleton_cases_permuted(rng, n_skp, tier, res, problems)
     lines += l2
@@ -346,8 +346,8 @@ def _run(tier, res, force_search=False):
     # ---- tier B (2): the layer-N window functions against the real per-window code
     from harness import debiasers_corr, isimip_corr
 
-    n_deb = 6 if tier == "quick" else 80
-    n_isi = 27 if tier == "quick" else 320
+    n_deb = 8 if tier == "quick" else 80
+    n_isi = 54 if tier == "quick" else 320
     try:
         mm = debiasers_corr.correspondence(rng, n_deb, tier, res, families=["LS", "DC", "QM", "ECDFM", "QDM", "SDMabs", "SDMrel", "CDFt"])
         if mm:
@@ -359,8 +359,8 @@ def _run(tier, res, force_search=False):
         res.tie_broken.append(f"layer-N correspondence could not run: {type(ex).__name__}: {str(ex)[:300]}")
 
     # ---- property oracle on the real code (small budget always; x3 when a tie is broken)
-    reps = 6 if tier == "quick" else 80
-    reps_extra = 3 if tier == "quick" else 30
+    reps = 10 if tier == "quick" else 80
+    reps_extra = 5 if tier == "quick" else 30
     if force_search or not lean_ok or res.tie_broken:
         reps *= 3
         reps_extra *= 3
